@@ -8,11 +8,11 @@ from hypothesis import strategies as st
 from . import gen_cmake as G
 
 CMAKE_NAMES = ["a.cmake", "b.cmake", "zeta.cmake", "d.e.cmake", "x-y.cmake", "Mod_1.cmake", "pre_one.cmake", "pre_two.cmake",
-               "ax.cmake", "bx.cmake", "Zeta.cmake", "w.cmake.cmake", "c.cmake-3.cmake", "in.util.cmake", "pfx.core.cmake"]
+               "ax.cmake", "bx.cmake", "Zeta.cmake", "w.cmake.cmake", "c.cmake-3.cmake", "in.util.cmake", "pfx.core.cmake", "tool.cmake", ".impl.cmake", "_private.cmake"]
 MIXED_NAMES = ["up.CMAKE", "Mix.CMake", "w.Cmake"]
 OTHER_NAMES = ["README", "x.txt", "CMakeLists.txt", "x.cmake.in", "cmake", "notcmake", "z.cmake.bak", "acmake", "data.json",
                "cmake.txt"]
-DIR_NAMES = ["sub", "a.b", "x-y", "cmake", "Dir2", "docs", "pre_dir", "ax", "deep", "d1", "d2", "tool.cmake", "pfx", "Sub"]
+DIR_NAMES = ["sub", "a.b", "x-y", "cmake", "Dir2", "docs", "pre_dir", "ax", "deep", "d1", "d2", "tool.cmake", "pfx", "Sub", ".detail", "in"]
 
 CONTENTS = [
     "#[[[\n# Function doc @.\n#]]\nfunction(fn_@ arg)\nendfunction()\n",
@@ -23,6 +23,11 @@ CONTENTS = [
     "",
     "#[[[\n# Class @.\n#]]\ncpp_class(Cls_@)\n  cpp_attr(Cls_@ attr_@ 1)\ncpp_end_class()\n",
     "#[[[\n# Test @.\n#]]\nct_add_test(NAME t_@)\nfunction(${t_@})\nendfunction()\n",
+    "#[[[\n# Pending test @ (declaration is the last command of the file).\n#]]\nct_add_test(NAME pend_@)\n",
+    "function(first_@ a b)\nendfunction()\n#[[[\n# After @.\n#]]\nset(AFTER_@ 1)\n",
+    "#[[[\n# Keyword function @.\n#]]\nfunction(kw_@ _a _b)\n  cmake_parse_arguments(x \"\" \"\" \"\")\nendfunction()\n",
+    "#[[[\n# Same parameters @, no keywords.\n#]]\nfunction(plain_@ _a _b)\nendfunction()\nmacro(m_@ _a _b)\nendmacro()\n",
+    "#[[[\n# Odd separators @: form feed \x0c line separator \u2028 next line \x85 end.\n#]]\nset(ODD_@ \"v\x0cw\")\n",
     "#[[[\n# Derived @.\n#]]\ncpp_class(Der_@ BaseA_@ BaseB_@ BaseC_@ BaseD_@)\n  cpp_member(m_@ Der_@ int str)\n  function(${m_@} self a b)\n  endfunction()\ncpp_end_class()\n",
 ]
 
@@ -57,7 +62,13 @@ def _norm(t, force_top):
         files[name] = t["files"][name]
     if force_top and not any(n.endswith(".cmake") for n in files):
         files["top.cmake"] = 0
-    return {"files": files, "dirs": dict(t["dirs"])}
+    # names differing only in letter case live side by side on a case-sensitive file system
+    if "Zeta.cmake" in files and "zeta.cmake" not in t["dirs"]:
+        files.setdefault("zeta.cmake", (files["Zeta.cmake"] + 1) if isinstance(files["Zeta.cmake"], int) else 1)
+    dirs = dict(t["dirs"])
+    if "Sub" in dirs and "sub" not in files:
+        dirs.setdefault("sub", {"files": {"b.cmake": 2}, "dirs": {}})
+    return {"files": files, "dirs": dirs}
 
 
 def fill(tree, counter=None):
